@@ -570,7 +570,11 @@ pub fn enumerate_faults(text: &str, root: &toml_edit::Item, single: Option<Fault
                     // wording-tolerant: the message, and the exact key path (quoted) iff there is one
                     let tail = e.rendered.replacen(&e.message, "", 1);
                     // the path must appear as a whole (not as part of a longer path), however it is quoted
-                    let path = keys.join(".");
+                    // ... and whether or not non-bare components are quoted: quote characters and
+                    // backslashes are ignored on both sides
+                    let unquote = |x: &str| x.chars().filter(|ch| !matches!(ch, '"' | '\'' | '`' | '\\')).collect::<String>();
+                    let path = unquote(&keys.join("."));
+                    let tail = unquote(&tail);
                     let is_key_char = |ch: char| ch.is_alphanumeric() || ch == '.' || ch == '_' || ch == '-';
                     let whole = |hay: &str| {
                         hay.match_indices(&path).any(|(i, _)| {
@@ -579,7 +583,12 @@ pub fn enumerate_faults(text: &str, root: &toml_edit::Item, single: Option<Fault
                             !before.map(is_key_char).unwrap_or(false) && !after.map(is_key_char).unwrap_or(false)
                         })
                     };
-                    let ok = e.rendered.contains(&e.message) && (keys.is_empty() || whole(&tail));
+                    // (keys with characters a renderer may escape are not compared: their spelling is free)
+                    let plain = keys.iter().all(|k| !k.is_empty() && k.chars().all(|ch| ch.is_ascii_alphanumeric() || matches!(ch, '_' | '-' | '.' | ' ')));
+                    if !plain {
+                        out.stats.inc("probe.key_path_not_compared_unusual_keys");
+                    }
+                    let ok = e.rendered.contains(&e.message) && (keys.is_empty() || !plain || whole(&tail));
                     if !ok {
                         out.violate(
                             "C15/5",
